@@ -179,10 +179,10 @@ FS_NOTE = "FileSink.Process / Reopen / reopen / open / rotate / pruneFiles / fil
 PROPS["C08"] = dict(
     level="other",
     explanation=FS_NOTE + "Assertions: an acknowledged event is appended exactly once and contiguously to the file the sink holds; existing files keep their content; only the oldest rotated files are removed and only under a retention limit; foreign files untouched; Reopen after an external rename keeps the renamed inode intact and starts a fresh file.",
-    jobs=[dict(harness=BROKER_H, entries=r"^H_C08_(Process|Reopen|history)$|^H_C15_fresh_directory$", params=dict(quick=dict(R=1, FAULTS=0, H=4), thorough=dict(R=3, FAULTS=0, H=5)), shards=dict(quick=16, thorough=16), instrument_clock=True),
+    jobs=[dict(harness=BROKER_H, entries=r"^H_C08_(Process|Reopen|history)$|^H_C15_fresh_directory$", params=dict(quick=dict(R=2, FAULTS=0, H=4), thorough=dict(R=3, FAULTS=0, H=5)), shards=dict(quick=16, thorough=16), instrument_clock=True),
           dict(harness=BROKER_H, entries=r"^H_C08_concurrent_writers$", params=dict(quick={}, thorough={}), shards=dict(quick=4, thorough=8), maxswitches=dict(quick=3, thorough=5), instrument_locks=True)],
     must_reach=["C08.concurrent.end", "C08.history.end", "C15.fresh-directory.end", "C08.process.norotate", "C08.process.rotated", "C08.process.opened", "C08.reopen.renamed", "C08.reopen.plain"],
-    bounds=dict(quick="<=1 rotated file + active + 2 foreign files; one operation from an arbitrary state (inductive step); histories of 4 operations (write / Reopen / external rename + Reopen) from an empty directory, MaxFiles 0..2, any MaxBytes / MaxDuration / clock", thorough="<=3 rotated files; histories of 5 operations"),
+    bounds=dict(quick="<=2 rotated files + active + 2 foreign files; one operation from an arbitrary state (inductive step); histories of 4 operations (write / Reopen / external rename + Reopen) from an empty directory, MaxFiles 0..2, any MaxBytes / MaxDuration / clock", thorough="<=3 rotated files; histories of 5 operations"),
     assumptions=["A-write: one write(2) on an O_APPEND descriptor is all-or-nothing, also under SIGKILL (partial writes and kernel crash behaviour are outside the claim)", "A-19digits: timestamps print with the same number of digits", "the clock is non-decreasing and strictly increasing between two file creations", "A-umask: the process umask is 022 (files get the configured mode only through the sink's explicit chmod)", "concurrent writers: every access happens with FileSink.l held (lockset in C19)"],
     trusted_base=COMMON_TRUST + ["ghost file system contracts (engine/symex/fsmodel.go)"],
 )
@@ -243,3 +243,18 @@ _TECH = {
 }
 for _p, _t in _TECH.items():
     PROPS[_p]["technique"] = _t
+
+
+# Per-entry parameter overrides (on top of the job's parameters of the tier). The registry step harnesses multiply paths
+# quickly with the number of symbolic ids K and the definition length L: K=3, L=3 costs 50 CPU-minutes for RegisterPipeline
+# alone (run #6), so the thorough tier deepens L before K there; pipelines of 3..6 nodes are covered by H_C05_shapes, three
+# distinct ids in one overwrite by H_C05_history_vs_model.
+ENTRY_PARAMS = {
+    "H_C05_RegisterPipeline": dict(quick=dict(K=2, L=2), thorough=dict(K=2, L=3)),
+    "H_C06_RegisterPipeline": dict(quick=dict(K=2, L=3), thorough=dict(K=2, L=4)),
+    "H_C07_pipeline_other_type": dict(quick=dict(K=2, L=2), thorough=dict(K=2, L=2)),
+}
+# Entries that are not re-run under the other solvers in the thorough tier (hundreds of thousands of paths each; the
+# cross-solver agreement is sampled on every other entry, which exercise the same encodings)
+NO_CROSSCHECK = {"H_C05_history_vs_model", "H_C05_RegisterPipeline", "H_C06_RegisterPipeline", "H_C07_pipeline_other_type",
+                 "H_C11_history_vs_model", "H_C16_history_vs_model", "H_C08_history", "H_C20_Reopen", "H_C09_nested", "H_C09_struct"}
